@@ -1,4 +1,5 @@
 import LiquidVerif.Model.InheritSpec
+import LiquidVerif.Model.InheritParse
 /-! Helper lemmas for C18 (block stacks = declarative definitions; chain walk). -/
 namespace LiquidVerif.Inherit
 
@@ -322,5 +323,59 @@ theorem buildFrom_reaches_dup {ld seen t u} (h : Reaches ld seen t u) (hdup : ha
   | step seen t p t' u he hd hs hf _ ih =>
     rw [buildFrom_step ld st _ seen t t' p (by rw [stackBlocks_ok st t (by simp [he]) hd, he]; rfl) hs hf]
     exact ih hdup _
+
+/-! ### `BlockTag.parse` -/
+
+theorem prun_append (s : PState) (a b : List Tok) :
+    prun s (a ++ b) = match prun s a with
+      | .error e => .error e
+      | .ok s' => prun s' b := by
+  induction a generalizing s with
+  | nil => rfl
+  | cons t r ih =>
+    simp only [List.cons_append, prun]
+    cases pstep s t with
+    | error e => rfl
+    | ok s' => exact ih s'
+
+/-- the only step that fails with TemplateInheritanceError is a named `endblock` that differs from the
+innermost open block -/
+theorem pstep_inheritance (s : PState) (t : Tok) (h : pstep s t = .error .inheritance) :
+    ∃ m f fs, t = .cls (some m) ∧ s.frames = f :: fs ∧ m ≠ f.name := by
+  cases t with
+  | text x => simp [pstep] at h
+  | opn n r => simp [pstep] at h
+  | cls on =>
+    simp only [pstep] at h
+    cases hf : s.frames with
+    | nil => simp [hf] at h
+    | cons f fs =>
+      simp only [hf] at h
+      cases on with
+      | none => simp at h
+      | some m =>
+        refine ⟨m, f, fs, rfl, rfl, ?_⟩
+        by_cases hm : m = f.name
+        · simp [hm] at h
+        · exact hm
+
+theorem prun_inheritance (s : PState) (toks : List Tok) (h : prun s toks = .error .inheritance) :
+    ∃ pre m rest s' f fs, toks = pre ++ .cls (some m) :: rest ∧ prun s pre = .ok s' ∧
+      s'.frames = f :: fs ∧ m ≠ f.name := by
+  induction toks generalizing s with
+  | nil => simp [prun] at h
+  | cons t r ih =>
+    simp only [prun] at h
+    cases hs : pstep s t with
+    | error e =>
+      simp only [hs] at h
+      cases h
+      obtain ⟨m, f, fs, rfl, hf, hm⟩ := pstep_inheritance s t hs
+      exact ⟨[], m, r, s, f, fs, rfl, rfl, hf, hm⟩
+    | ok s1 =>
+      simp only [hs] at h
+      obtain ⟨pre, m, rest, s', f, fs, rfl, hp, hf, hm⟩ := ih s1 h
+      refine ⟨t :: pre, m, rest, s', f, fs, rfl, ?_, hf, hm⟩
+      simp [prun, hs, hp]
 
 end LiquidVerif.Inherit
